@@ -907,6 +907,29 @@ def canon_lit(txt: str, pol: bool):
     return ast.unparse(e), pol
 
 
+def inline_facts(a) -> list:
+    """Literals that hold when sub-expression a is evaluated because of where it stands inside its statement: earlier operands
+    of an and / or chain, the test of a conditional expression, the filters of an enclosing comprehension."""
+    out = []
+    cur, child = getattr(a, '_parent', None), a
+    while cur is not None and not isinstance(cur, ast.stmt):
+        if isinstance(cur, ast.BoolOp):
+            idx = next((i for i, v in enumerate(cur.values) if v is child), None)
+            if idx:
+                for v in cur.values[:idx]:
+                    _atoms(v, isinstance(cur.op, ast.And), out)
+        if isinstance(cur, (ast.ListComp, ast.GeneratorExp, ast.SetComp, ast.DictComp)):
+            for gen in cur.generators:
+                if child is not gen.iter and not any(child is x for x in ast.walk(gen.iter)):
+                    for cond in gen.ifs:
+                        if child is not cond:
+                            _atoms(cond, True, out)
+        if isinstance(cur, ast.IfExp) and child is not cur.test:
+            _atoms(cur.test, child is cur.body, out)
+        child, cur = cur, getattr(cur, '_parent', None)
+    return out
+
+
 def truth_under(e, facts):
     """Three-valued truth of expression e given a set of literals (Facts / list of (text, polarity)): True, False or None."""
     raw = list(list.__iter__(facts)) + list(getattr(facts, 'resolved', []))
